@@ -30,7 +30,8 @@ LEVEL_NOTE = ('Trusted: the reference split (vlib/checks/c19.py ref_split_path) 
               'spaces). Segment and item alphabets are the listed ones.')
 
 SEGS = ['a', '', 'b.c', 'd e']
-ITEMS = ['a', 'a b', 'a,b', 'a"b', 'a\\b', '', ' a', 'x, ', '"', 'ab\\', 'k=v', "it's"]
+ITEMS = ['a', 'a b', 'a,b', 'a"b', 'a\\b', '', ' a', 'x, ', '"', 'ab\\', 'k=v', "it's",
+         "'a'", "'a", "b'"]
 
 
 def ref_split_path(path, minsegs, maxsegs, rest_with_last):
